@@ -22,14 +22,27 @@ def neg(P):
     return ((-P[0]) % p, P[1])
 
 
+def _ext_add(P, Q):
+    (X1, Y1, Z1, T1), (X2, Y2, Z2, T2) = P, Q
+    A = (Y1 - X1) * (Y2 - X2) % p
+    Bq = (Y1 + X1) * (Y2 + X2) % p
+    C = T1 * 2 * d * T2 % p
+    D = Z1 * 2 * Z2 % p
+    E, F, G, H_ = Bq - A, D - C, D + C, Bq + A
+    return (E * F % p, G * H_ % p, F * G % p, E * H_ % p)
+
+
 def mul(k, P):
-    Q = (0, 1)
+    """scalar multiplication in extended coordinates (one inversion at the end)"""
+    Q = (0, 1, 1, 0)
+    R = (P[0], P[1], 1, P[0] * P[1] % p)
     while k > 0:
         if k & 1:
-            Q = add(Q, P)
-        P = add(P, P)
+            Q = _ext_add(Q, R)
+        R = _ext_add(R, R)
         k >>= 1
-    return Q
+    zi = inv(Q[2])
+    return (Q[0] * zi % p, Q[1] * zi % p)
 
 
 def xrecover(y, sign):
